@@ -2,16 +2,17 @@ package drivers
 
 // Registry maps driver names to entry points.
 var Registry = map[string]func(Args) error{
-	"codec": Codec,
-	"frame": Frame,
-	"stream": Stream,
-	"mux": Mux,
-	"answer": Answer,
-	"smanswer": SMAnswer,
-	"find": Find,
-	"cer": CER,
-	"gate": Gate,
-	"handshake": Handshake,
-	"watchdog": Watchdog,
+	"codec":       Codec,
+	"frame":       Frame,
+	"stream":      Stream,
+	"mux":         Mux,
+	"answer":      Answer,
+	"smanswer":    SMAnswer,
+	"find":        Find,
+	"cer":         CER,
+	"gate":        Gate,
+	"handshake":   Handshake,
+	"watchdog":    Watchdog,
 	"closenotify": CloseNotify,
+	"serial":      Serial,
 }
